@@ -191,6 +191,9 @@ pub struct Config {
 /// run independent configurations on worker threads (each exploration itself is sequential)
 pub fn run_configs(run: &mut Run, prop: &str, setup: &Setup, configs: &[Config], extra: &(dyn Fn(&[OpRec], &FinalView, &[String]) -> Option<(String, String)> + Sync)) -> (u64, u64, u64, usize) {
     let idx = std::sync::atomic::AtomicUsize::new(0);
+    // configurations not started before the deadline are skipped and reported as such
+    let deadline = std::time::Instant::now() + Duration::from_secs(if run.quick() { 120 } else { 2400 });
+    let skipped = std::sync::atomic::AtomicUsize::new(0);
     let results: std::sync::Mutex<Vec<(PairResult, Vec<Violation>)>> = std::sync::Mutex::new(vec![]);
     let workers = match crate::util::workers() {
         0 => std::thread::available_parallelism().map(|n| n.get()).unwrap_or(4),
@@ -203,6 +206,10 @@ pub fn run_configs(run: &mut Run, prop: &str, setup: &Setup, configs: &[Config],
                 if i >= configs.len() {
                     break;
                 }
+                if std::time::Instant::now() > deadline {
+                    skipped.fetch_add(1, std::sync::atomic::Ordering::SeqCst);
+                    continue;
+                }
                 let c = &configs[i];
                 let r = explore_programs(prop, setup, &c.programs, c.bound, c.max_exec, c.budget, extra, c.linearizable);
                 results.lock().unwrap().push(r);
@@ -210,6 +217,9 @@ pub fn run_configs(run: &mut Run, prop: &str, setup: &Setup, configs: &[Config],
         }
     });
     let (mut ex, mut pts, mut capped, mut maxo) = (0, 0, 0, 0);
+    let sk = skipped.load(std::sync::atomic::Ordering::SeqCst) as u64;
+    run.cov_add("ilv_configs_skipped_by_deadline", sk);
+    capped += sk;
     for (r, vs) in results.into_inner().unwrap() {
         ex += r.executions;
         pts += r.points;
